@@ -14,7 +14,7 @@ import os
 from sim import cards
 from sim.prng import Stream
 
-FAST = ["BFGS", "BFGS", "BFGS", "CG", "L-BFGS-B"]
+FAST = ["BFGS", "BFGS", "BFGS", "CG", "CG", "L-BFGS-B", "L-BFGS-B", "Nelder-Mead", "test"]  # "test" = the library's own BFGS (fit_improve.minimize)
 SLOW = ["Newton-CG", "trust-ncg", "trust-krylov", "trust-exact", "iminuit"]
 VERY_SLOW = ["Newton-CG-p", "trust-ncg-p", "trust-krylov-p"]
 
@@ -26,6 +26,9 @@ RULE = (
 )
 
 
+FOCI = ["float_m_restart", "float_m_restart_params", "gauss_range", "gauss_groups", "fix_tied", "pull_range", "fix_fit_free", "range_mag", "pull_groups"]
+
+
 def plan(tier, seed):
     jobs = []
     i = 0
@@ -33,8 +36,14 @@ def plan(tier, seed):
         nfast, slow_each, vslow = 44, 1, 0
     else:
         nfast, slow_each, vslow = 1500, 40, 6
+    nfocus = 2 * len(FOCI) if tier == "quick" else 12 * len(FOCI)
     for k in range(nfast):
-        jobs.append({"mode": "seed", "seed": seed * 1000003 + i, "klass": "fast"})
+        j = {"mode": "seed", "seed": seed * 1000003 + i, "klass": "fast"}
+        if k < nfocus:
+            # coverage guarantee: the feature combinations a property clause depends on appear in every batch,
+            # whatever the seed; everything else of these sessions is still drawn from the seed
+            j["focus"] = FOCI[k % len(FOCI)]
+        jobs.append(j)
         i += 1
     for m in SLOW:
         for k in range(slow_each):
@@ -90,10 +99,34 @@ def generate(job):
     # constraints (resolved against the built model by index)
     cons = []
     for _ in range(rc.weighted([(0, 1), (1, 3), (2, 4), (3, 2)]) if not slow else rc.weighted([(0, 1), (1, 3)])):
-        k = rc.weighted([("float_m", 3), ("float_g", 2), ("float_mg", 2), ("var_equal", 3), ("var_range", 3), ("fix_var", 2), ("gauss", 1)])
+        k = rc.weighted([("float_m", 3), ("float_g", 2), ("float_mg", 2), ("var_equal", 3), ("var_range", 3), ("fix_var", 2), ("gauss", 1), ("fix_tied", 1.5)])
         cons.append({"k": k, "i": rc.randrange(100), "j": rc.randrange(100), "side": rc.choice(["two", "two", "lower", "upper"]), "w": round(rc.uniform(0.05, 0.4), 3), "v": round(rc.uniform(0.3, 1.5), 3)})
+    focus = job.get("focus")
+    if focus and not slow:
+        i0 = rc.randrange(100)
+        base = {"i": i0, "j": rc.randrange(100), "side": "two", "w": round(rc.uniform(0.05, 0.2), 3), "v": round(rc.uniform(0.3, 1.5), 3)}
+        cons = {
+            "float_m_restart": [dict(base, k="float_m")],
+            "float_m_restart_params": [dict(base, k="float_m", side=rc.choice(["two", "lower", "upper"]))],
+            "gauss_range": [dict(base, k="float_m"), dict(base, k="gauss")],
+            "gauss_groups": [dict(base, k=rc.choice(["float_m", "float_mg"])), dict(base, k="gauss")],
+            "fix_tied": [dict(base, k="fix_tied")],
+            "pull_range": [dict(base, k="float_m", side=rc.choice(["two", "lower", "upper"]))],
+            "fix_fit_free": [dict(base, k="float_m", side=rc.choice(["two", "lower", "upper"]))],
+            "range_mag": [dict(base, k="var_range", j=1)],
+            "pull_groups": [dict(base, k="float_m"), dict(base, k="var_range", j=1)],
+        }[focus] + cons[:1]
+        if focus in ("gauss_groups", "pull_groups"):
+            spec["n_groups"] = 2
+        if focus in ("pull_range", "fix_fit_free", "pull_groups"):
+            spec["pull"] = rc.choice([1.0, 2.0])
+    else:
+        if not slow and rc.chance(0.15):
+            spec["n_groups"] = 2
+        if not slow and rc.chance(0.25):
+            spec["pull"] = rc.choice([1.0, 2.0])
     spec["constraints"] = cons
-    if any(c["k"] == "var_equal" for c in cons) and not slow:
+    if any(c["k"] in ("var_equal", "fix_tied") for c in cons) and not slow:
         spec["card"] = cards.make_card(rs.child("model3"), "S3", n_res=3)  # two free magnitudes to tie
     ops = []
     if slow:
@@ -105,7 +138,7 @@ def generate(job):
         for _ in range(n):
             k = ro.weighted([("fit", 6), ("set_params", 2), ("reinit", 1), ("save_restart", 3), ("fit_interrupted", 1.5)])
             if k == "fit":
-                ops.append({"k": "fit", "method": ro.choice(FAST), "maxiter": ro.choice([1, 2, 3, 5, 8]), "grad_scale": ro.choice([1.0, 1.0, 2.0]), "jac": ro.choice([True, True, True, True, "2-point"]), "monitor": ro.chance(0.25)})
+                ops.append({"k": "fit", "method": ro.choice(FAST), "maxiter": ro.choice([1, 2, 3, 5, 8]), "grad_scale": ro.choice([1.0, 1.0, 2.0]), "jac": ro.choice([True, True, True, True, "2-point"]), "monitor": ro.chance(0.25), "check_grad": ro.chance(0.15)})
             elif k == "fit_interrupted":
                 ops.append({"k": "fit_interrupted", "method": ro.choice(["BFGS", "BFGS", "CG", "L-BFGS-B"]), "after": ro.choice([1, 2, 3]), "how": ro.choice(["callback", "callback", "line", "line"]), "pos": ro.choice([300, 3000, 20000, 60000, 150000])})
             elif k == "set_params":
@@ -116,6 +149,19 @@ def generate(job):
                 ops.append({"k": "save_restart", "how": ro.choice(["save_as", "save_params"])})
         if not any(o["k"] == "fit" for o in ops):
             ops.insert(0, {"k": "fit", "method": "BFGS", "maxiter": 3, "grad_scale": 1.0})
+        fit = lambda m, n=3: {"k": "fit", "method": m, "maxiter": n, "grad_scale": 1.0, "jac": True, "monitor": False}
+        if focus in ("float_m_restart", "float_m_restart_params"):
+            ops = [fit("BFGS"), {"k": "save_restart", "how": "save_as" if focus == "float_m_restart" else "save_params"}] + ops[:2]
+        elif focus in ("gauss_range", "gauss_groups"):
+            ops = [fit(ro.choice(FAST)), fit(ro.choice(FAST))] + ops[:1]
+        elif focus in ("pull_range", "pull_groups"):
+            ops = [fit(ro.choice(FAST), 8), fit(ro.choice(FAST), 8)] + ops[:1]
+        elif focus == "fix_fit_free":
+            ops = [{"k": "fix_fit_free", "method": ro.choice(FAST), "maxiter": 2}, fit(ro.choice(FAST), 8), fit(ro.choice(FAST), 8)] + ops[:1]
+        elif focus in ("fix_tied", "range_mag"):
+            ops = [fit(ro.choice(FAST))] + ops[:2]
+        elif ro.chance(0.15):
+            ops.insert(ro.randrange(len(ops)), {"k": "fix_fit_free", "method": ro.choice(FAST), "maxiter": 2})
     spec["ops"] = ops
     return spec
 
@@ -158,6 +204,10 @@ def apply_constraints(card, cons, names, log, free=None):
                     prm["width_max"] = round(g0 * 3, 4)
             if prm:
                 p["params"] = prm
+            if "m" in fl and ("mass_min" in prm or "mass_max" in prm):
+                info["ranges"][r + "_mass"] = (prm.get("mass_min"), prm.get("mass_max"))
+            if "g" in fl and ("width_min" in prm or "width_max" in prm):
+                info["ranges"][r + "_width"] = (prm.get("width_min"), prm.get("width_max"))
         elif k == "var_equal" and len(mags) >= 2:
             pool = free_mags if len(free_mags) >= 2 else mags  # prefer two free magnitudes (a tie with the fixed one fixes both)
             a, b = pool[c["i"] % len(pool)], pool[(c["i"] + 1 + c["j"] % (len(pool) - 1)) % len(pool)]
@@ -166,6 +216,16 @@ def apply_constraints(card, cons, names, log, free=None):
                 used.add(("tie", b))
                 constr.setdefault("var_equal", []).append([a, b])
                 info["ties"].append([a, b])
+        elif k == "fix_tied" and len(free_mags) >= 2:
+            # the same variable fixed AND the non-first member of a tie whose first member is free
+            a, b = free_mags[c["i"] % len(free_mags)], free_mags[(c["i"] + 1) % len(free_mags)]
+            if a != b and ("tie", a) not in used and ("tie", b) not in used and ("fix", b) not in used:
+                used.update({("tie", a), ("tie", b), ("fix", b)})
+                constr.setdefault("var_equal", []).append([a, b])
+                constr.setdefault("fix_var", {})[b] = c["v"]
+                info["ties"].append([a, b])
+                info["fixed"][b] = c["v"]
+                info["fixed"][a] = c["v"]
         elif k == "var_range" and mags:
             phases = sorted(n[:-1] + "i" for n in free_mags if n[:-1] + "i" in names)
             if phases and c["j"] % 3 == 0:
@@ -175,6 +235,7 @@ def apply_constraints(card, cons, names, log, free=None):
                     continue
                 used.add(("range", a))
                 constr.setdefault("var_range", {})[a] = [-3.2, 0] if c["j"] % 2 else [0, 3.2]
+                info["ranges"][a] = tuple(constr["var_range"][a])
                 continue
             a = mags[c["i"] % len(mags)]
             if ("range", a) in used or ("tie", a) in used:
@@ -182,6 +243,7 @@ def apply_constraints(card, cons, names, log, free=None):
             used.add(("range", a))
             lo, hi = {"two": (0.0, 4.0), "lower": (0.0, None), "upper": (None, 4.0)}[c["side"]]
             constr.setdefault("var_range", {})[a] = [lo, hi]
+            info["ranges"][a] = (lo, hi)
         elif k == "fix_var" and gls:
             a = gls[c["i"] % len(gls)]
             if ("fix", a) in used:
@@ -212,11 +274,34 @@ class Session:
         log.ev("card", constr=self.card.get("constrains"), floats={k: (v.get("float"), v.get("params")) for k, v in self.card["particle"].items() if k.startswith("R_")})
         self.config = self.build()
         amp = self.config.get_amplitude()
+        # what the card declares fixed is not free, neither directly nor through a tie partner
+        vm0 = amp.vm
+        for n in self.info["fixed"]:
+            if n in vm0.variables:
+                shared = [t for t in vm0.trainable_vars if vm0.variables[t] is vm0.variables[n]]
+                if n in vm0.trainable_vars or shared:
+                    log.fail("fixed-unchanged", "config|fix_var-still-free", "the card fixes %s (fix_var) but after loading it is still free%s" % (n, " through its tie partner %s" % shared[0] if shared else ""))
         # "true" point -> toy data and phase space from the seam
         cards.randomize_params(amp, Stream(spec["true_seed"], "true"), 0.8)
+        if spec.get("pull"):
+            # the toy data are generated with the floating masses OUTSIDE their declared range: the likelihood
+            # pulls a fit across the limit, only the bound keeps it inside
+            rp = Stream(spec["true_seed"], "pull")
+            p0 = amp.get_params()
+            for n, (lo, hi) in sorted(self.info["ranges"].items()):
+                if n.endswith("_mass") and n in p0:
+                    side = "hi" if lo is None else ("lo" if hi is None else rp.choice(["lo", "hi"]))
+                    w = (hi - float(p0[n])) if side == "hi" else (float(p0[n]) - lo)
+                    amp.set_params({n: (hi + spec["pull"] * w) if side == "hi" else (lo - spec["pull"] * w)})
+                    log.count("probe.true_point_outside_declared_range")
+        ng = spec.get("n_groups", 1)
         with rng_seam(spec["data_seed"]):
-            self.phsp = self.config.generate_phsp(spec["n_phsp"])
-            self.data = self.config.generate_toy(spec["n_data"], max_N=400)
+            self.phsp = [self.config.generate_phsp(spec["n_phsp"]) for _ in range(ng)]
+            self.data = [self.config.generate_toy(max(spec["n_data"] // ng, 10), max_N=400) for _ in range(ng)]
+        if spec.get("pull"):
+            amp.set_params({n: float(p0[n]) for n in self.info["ranges"] if n.endswith("_mass") and n in p0})
+        if ng > 1:
+            log.count("probe.multi_group_fit")
         cards.randomize_params(amp, Stream(spec["start_seed"], "start"), 0.8, p_neg=0.3)
         self.negate_ties(Stream(spec["start_seed"], "neg"))
         self.inside_bounds()
@@ -255,11 +340,12 @@ class Session:
                 amp.set_params({a: -abs(v) - 0.2})
 
     def my_nll(self, config):
-        fcn = config.get_fcn([[self.data], [self.phsp], None, None], batch=self.spec["batch"])
+        fcn = config.get_fcn([self.data, self.phsp, None, None], batch=self.spec["batch"])
         return float(fcn({}))
 
     def bounds(self, config):
-        return {k: tuple(v) for k, v in config.bound_dic.items()}
+        """the ranges the CARD declares (independent of what the library currently remembers)"""
+        return dict(self.info["ranges"])
 
     def run_op(self, i, op):
         np, log = self.np, self.log
@@ -286,6 +372,19 @@ class Session:
             return self.save_restart(i, op)
         if k == "fit_interrupted":
             return self.fit_interrupted(i, op)
+        if k == "fix_fit_free":
+            # the likelihood-profile pattern: fix a (ranged) free parameter, fit the rest, free it again
+            cand = [n for n in sorted(self.info["ranges"]) if n in vm.trainable_vars] or [n for n in sorted(vm.trainable_vars) if n.endswith("r")][:1]
+            if not cand:
+                return
+            name = cand[0]
+            vm.set_fix(name)
+            log.count("probe.parameter_fixed_for_one_fit")
+            try:
+                r = self.run_op(i, {"k": "fit", "method": op["method"], "maxiter": op.get("maxiter", 2), "grad_scale": 1.0})
+            finally:
+                vm.set_fix(name, unfix=True)
+            return r
         # ---- fit
         method = op["method"]
         before = {kk: float(v) for kk, v in config.get_params().items()}
@@ -311,7 +410,10 @@ class Session:
             if op.get("jac", True) is not True and method in ("BFGS", "CG"):
                 kw["jac"] = op["jac"]
                 mkey = method + "(jac=%s)" % op["jac"]
-            res = config.fit([self.data], [self.phsp], method=method, maxiter=op.get("maxiter"), grad_scale=op.get("grad_scale", 1.0), batch=self.spec["batch"], print_init_nll=False, **kw)
+            if op.get("check_grad"):
+                kw["check_grad"] = True  # the gradient is compared with finite differences after the minimisation
+                mkey = mkey + "(check_grad)"
+            res = config.fit(self.data, self.phsp, method=method, maxiter=op.get("maxiter"), grad_scale=op.get("grad_scale", 1.0), batch=self.spec["batch"], print_init_nll=False, **kw)
         except Exception as e:
             import traceback
 
@@ -388,12 +490,12 @@ class Session:
                 tr = LineTracer(fire_at=op.get("pos", 3000), exc_type=InjectedInterrupt if op.get("pos", 0) % 7 == 0 else InjectedFault)
                 try:
                     with tr:
-                        config.fit([self.data], [self.phsp], method=op.get("method", "BFGS"), maxiter=6, batch=self.spec["batch"], print_init_nll=False)
+                        config.fit(self.data, self.phsp, method=op.get("method", "BFGS"), maxiter=6, batch=self.spec["batch"], print_init_nll=False)
                 finally:
                     sys.settrace(None)
                 self.log.count("probe.interrupted_fit_finished_before_the_fault")
             else:
-                config.fit([self.data], [self.phsp], method=op.get("method", "BFGS"), maxiter=20, batch=self.spec["batch"], print_init_nll=False, callback=cb)
+                config.fit(self.data, self.phsp, method=op.get("method", "BFGS"), maxiter=20, batch=self.spec["batch"], print_init_nll=False, callback=cb)
                 self.log.count("probe.interrupted_fit_finished_before_the_fault")
         except (InjectedFault, InjectedInterrupt):
             self.log.count("fault.fit_interrupted_at_line")
